@@ -13,6 +13,7 @@ import (
 	"github.com/projectcalico/calico/felix/generictables"
 	"github.com/projectcalico/calico/felix/ipsets"
 	"github.com/projectcalico/calico/felix/iptables"
+	"github.com/projectcalico/calico/felix/nftables"
 	"github.com/projectcalico/calico/felix/proto"
 	"github.com/projectcalico/calico/felix/rules"
 	"github.com/projectcalico/calico/felix/types"
@@ -23,15 +24,28 @@ import (
 type state struct {
 	cfg rules.Config
 	r   rules.RuleRenderer
+	nft bool
 }
 
 var features = &environment.Features{}
 var renderer = iptables.NewIptablesRenderer("")
+var nftR = nftables.NewNFTRenderer("", 4)
+
+var nftMode bool
 
 func renderChain(c *generictables.Chain) string {
 	var out []string
 	for i := range c.Rules {
-		out = append(out, renderer.RenderAppend(&c.Rules[i], c.Name, "", features))
+		if nftMode {
+			r := nftR.Render(c.Name, "", c.Rules[i], features)
+			cm := ""
+			if r.Comment != nil {
+				cm = " #" + *r.Comment
+			}
+			out = append(out, c.Name+": "+r.Rule+cm)
+		} else {
+			out = append(out, renderer.RenderAppend(&c.Rules[i], c.Name, "", features))
+		}
 	}
 	if len(out) == 0 {
 		return c.Name + " <empty>"
@@ -48,6 +62,13 @@ func findChain(cs []*generictables.Chain, name string) string {
 	return "no-such-chain"
 }
 
+func maxLen() int {
+	if nftMode {
+		return nftables.MaxChainNameLength
+	}
+	return iptables.MaxChainNameLength
+}
+
 func parsePorts(s string) []v3.ProtoPort {
 	var out []v3.ProtoPort
 	if s == "-" {
@@ -59,6 +80,9 @@ func parsePorts(s string) []v3.ProtoPort {
 		pp := v3.ProtoPort{Protocol: f[0], Port: uint16(port)}
 		if len(f) > 2 {
 			pp.Net = f[2]
+			if strings.HasPrefix(pp.Net, "v6-") { // an IPv6 net, written with '-' for ':' in the op
+				pp.Net = strings.ReplaceAll(strings.TrimPrefix(pp.Net, "v6-"), "-", ":")
+			}
 		}
 		out = append(out, pp)
 	}
@@ -85,6 +109,9 @@ func exec(h *rt.H, s *state, op string) string {
 	w := strings.Fields(op)
 	switch w[0] {
 	case "cfg":
+		s.nft = w[1] == "nft"
+		nftMode = s.nft
+		w = w[1:]
 		c := baseConfig()
 		c.IPIPEnabled = w[1] == "1"
 		c.VXLANEnabled = w[2] == "1"
@@ -98,7 +125,7 @@ func exec(h *rt.H, s *state, op string) string {
 		c.FailsafeInboundHostPorts = parsePorts(w[10])
 		c.FailsafeOutboundHostPorts = parsePorts(w[11])
 		s.cfg = c
-		s.r = rules.NewRenderer(c, false)
+		s.r = rules.NewRenderer(c, s.nft)
 		return "ok"
 	case "static":
 		// static <table> <chain>
@@ -123,19 +150,19 @@ func exec(h *rt.H, s *state, op string) string {
 		switch w[1] {
 		case "filter-in":
 			cs = s.r.HostEndpointToFilterChains(w[2], tiers, nil, nil, nil)
-			name = rules.EndpointChainName(rules.HostFromEndpointPfx, w[2], iptables.MaxChainNameLength)
+			name = rules.EndpointChainName(rules.HostFromEndpointPfx, w[2], maxLen())
 		case "filter-out":
 			cs = s.r.HostEndpointToFilterChains(w[2], tiers, nil, nil, nil)
-			name = rules.EndpointChainName(rules.HostToEndpointPfx, w[2], iptables.MaxChainNameLength)
+			name = rules.EndpointChainName(rules.HostToEndpointPfx, w[2], maxLen())
 		case "raw-in":
 			cs = s.r.HostEndpointToRawChains(w[2], tiers)
-			name = rules.EndpointChainName(rules.HostFromEndpointPfx, w[2], iptables.MaxChainNameLength)
+			name = rules.EndpointChainName(rules.HostFromEndpointPfx, w[2], maxLen())
 		case "raw-out":
 			cs = s.r.HostEndpointToRawChains(w[2], tiers)
-			name = rules.EndpointChainName(rules.HostToEndpointPfx, w[2], iptables.MaxChainNameLength)
+			name = rules.EndpointChainName(rules.HostToEndpointPfx, w[2], maxLen())
 		case "mangle-in":
 			cs = s.r.HostEndpointToMangleIngressChains(w[2], tiers)
-			name = rules.EndpointChainName(rules.HostFromEndpointPfx, w[2], iptables.MaxChainNameLength)
+			name = rules.EndpointChainName(rules.HostFromEndpointPfx, w[2], maxLen())
 		}
 		return findChain(cs, name)
 	case "wldispatch":
@@ -203,43 +230,82 @@ func chainLines(out string) []string {
 	return strings.Split(out, " ;; ")
 }
 
+// text helpers: the same structural facts in iptables and nftables syntax.
+func (s *state) isJump(l, chain string) bool {
+	if s.nft {
+		return strings.Contains(l, "counter jump "+chain)
+	}
+	return strings.HasSuffix(l, "--jump "+chain)
+}
+func (s *state) isDrop(l string) bool {
+	if s.nft {
+		return strings.Contains(l, "counter drop")
+	}
+	return strings.HasSuffix(l, "--jump DROP")
+}
+func (s *state) acceptRule(pp v3.ProtoPort, dst bool, net string) string {
+	if s.nft {
+		dir := "dport"
+		if !dst {
+			dir = "sport"
+		}
+		t := fmt.Sprintf("meta l4proto %s %s %s { %d }", pp.Protocol, pp.Protocol, dir, pp.Port)
+		if net != "" {
+			t += " " + net
+		}
+		return t + " counter accept"
+	}
+	t := fmt.Sprintf("-p %s -m multiport --destination-ports %d", pp.Protocol, pp.Port)
+	if net != "" {
+		t += " " + net
+	}
+	return t + " --jump ACCEPT"
+}
+
 func oracle(h *rt.H, s *state, op string, out string) {
 	w := strings.Fields(op)
 	lines := chainLines(out)
 	fail := func(sig, desc string) {
-		h.OracleFail(sig, desc, map[string]any{"op": op, "rendered": lines, "cfg": fmt.Sprintf("%+v", s.cfg.FailsafeInboundHostPorts)})
+		h.OracleFail(sig, desc, map[string]any{"op": op, "rendered": lines, "nft": s.nft})
+	}
+	has := func(sub string) bool {
+		for _, l := range lines {
+			if strings.Contains(l, sub) {
+				return true
+			}
+		}
+		return false
 	}
 	switch {
 	case w[0] == "static" && w[2] == "cali-failsafe-in":
-		// every configured inbound failsafe port has an ACCEPT rule (IPv4 nets only)
 		for _, pp := range s.cfg.FailsafeInboundHostPorts {
-			want := fmt.Sprintf("-p %s -m multiport --destination-ports %d", pp.Protocol, pp.Port)
-			if pp.Net != "" {
-				want += " --source " + pp.Net // an inbound failsafe restricted to a net is restricted by SOURCE
+			if strings.Contains(pp.Net, ":") {
+				continue // a net of the other IP family: the IPv4 chains legitimately skip the entry
 			}
-			found := false
-			for _, l := range lines {
-				if strings.Contains(l, want+" --jump ACCEPT") {
-					found = true
+			net := ""
+			if pp.Net != "" {
+				net = "--source " + pp.Net // an inbound failsafe restricted to a net is restricted by SOURCE
+				if s.nft {
+					net = "ip saddr " + pp.Net
 				}
 			}
-			if !found {
+			if want := s.acceptRule(pp, true, net); !has(want) {
 				fail("failsafe-in-missing", "inbound failsafe port without ACCEPT rule: "+want)
 			}
 		}
 	case w[0] == "static" && w[2] == "cali-failsafe-out":
 		for _, pp := range s.cfg.FailsafeOutboundHostPorts {
-			want := fmt.Sprintf("-p %s -m multiport --destination-ports %d", pp.Protocol, pp.Port)
-			if pp.Net != "" {
-				want += " --destination " + pp.Net
+			if strings.Contains(pp.Net, ":") {
+				continue
 			}
-			found := false
-			for _, l := range lines {
-				if strings.Contains(l, want+" --jump ACCEPT") {
-					found = true
+			net := ""
+			if pp.Net != "" {
+				net = "--destination " + pp.Net
+				if s.nft {
+					net = "ip daddr " + pp.Net
 				}
 			}
-			if !found {
+			if want := s.acceptRule(pp, true, net); !has(want) {
 				fail("failsafe-out-missing", "outbound failsafe port without ACCEPT rule: "+want)
 			}
 		}
@@ -247,7 +313,7 @@ func oracle(h *rt.H, s *state, op string, out string) {
 		// the failsafe jump precedes every policy jump and every drop other than the conntrack-INVALID one
 		fs := -1
 		for i, l := range lines {
-			if strings.HasSuffix(l, "--jump cali-failsafe-in") || strings.HasSuffix(l, "--jump cali-failsafe-out") {
+			if s.isJump(l, "cali-failsafe-in") || s.isJump(l, "cali-failsafe-out") {
 				fs = i
 				break
 			}
@@ -258,19 +324,19 @@ func oracle(h *rt.H, s *state, op string, out string) {
 		}
 		for i := 0; i < fs; i++ {
 			l := lines[i]
-			if strings.Contains(l, "--jump cali-p") || (strings.HasSuffix(l, "--jump DROP") && !strings.Contains(l, "--ctstate INVALID")) {
+			invalid := strings.Contains(l, "--ctstate INVALID") || strings.Contains(l, "ct state invalid")
+			if strings.Contains(l, "jump cali-p") || (s.isDrop(l) && !invalid) {
 				fail("hep-policy-before-failsafe", "policy or drop rule ahead of the failsafe jump: "+l)
 			}
 		}
 	case w[0] == "wldispatch":
-		if len(lines) == 0 || !strings.HasSuffix(lines[len(lines)-1], "--jump DROP") || strings.Contains(lines[len(lines)-1], "-interface") {
+		if len(lines) == 0 || !s.isDrop(lines[len(lines)-1]) || strings.Contains(lines[len(lines)-1], "-interface") || strings.Contains(lines[len(lines)-1], "ifname") {
 			fail("dispatch-not-fail-closed", "workload dispatch chain does not end with an unconditional drop")
 		}
 	case w[0] == "static" && w[2] == "cali-wl-to-host":
-		d := -1
-		a := -1
+		d, a := -1, -1
 		for i, l := range lines {
-			if strings.HasSuffix(l, "--jump cali-from-wl-dispatch") {
+			if s.isJump(l, "cali-from-wl-dispatch") {
 				d = i
 			}
 			if strings.Contains(l, "Configured DefaultEndpointToHostAction") && a < 0 {
@@ -280,18 +346,21 @@ func oracle(h *rt.H, s *state, op string, out string) {
 		if d < 0 || a < 0 || a < d {
 			fail("to-host-order", "endpoint-to-host action is not after the workload egress dispatch")
 		}
-	case w[0] == "static" && w[2] == "cali-INPUT":
-		// workload interfaces are diverted to cali-wl-to-host before any host endpoint processing; foreign tunnel drops present
+	case w[0] == "static" && w[1] == "filter" && w[2] == "cali-INPUT":
 		hepIdx := -1
 		for i, l := range lines {
-			if strings.HasSuffix(l, "--jump cali-from-host-endpoint") {
+			if s.isJump(l, "cali-from-host-endpoint") {
 				hepIdx = i
 			}
 		}
 		for _, pfx := range s.cfg.WorkloadIfacePrefixes {
+			want := fmt.Sprintf("-A cali-INPUT --in-interface %s+ --goto cali-wl-to-host", pfx)
+			if s.nft {
+				want = fmt.Sprintf("cali-INPUT: iifname %s* counter goto cali-wl-to-host", pfx)
+			}
 			found := false
 			for i, l := range lines {
-				if l == fmt.Sprintf("-A cali-INPUT --in-interface %s+ --goto cali-wl-to-host", pfx) && (hepIdx < 0 || i < hepIdx) {
+				if l == want && (hepIdx < 0 || i < hepIdx) {
 					found = true
 				}
 			}
@@ -300,25 +369,48 @@ func oracle(h *rt.H, s *state, op string, out string) {
 			}
 		}
 		if s.cfg.IPIPEnabled {
-			found := false
-			for _, l := range lines {
-				if strings.HasSuffix(l, "-p 4 --jump DROP") {
-					found = true
-				}
+			want := "-p 4 --jump DROP"
+			if s.nft {
+				want = "cali-INPUT: meta l4proto 4 counter drop"
 			}
-			if !found {
+			if !has(want) {
 				fail("no-foreign-ipip-drop", "IPIP enabled but no drop for IPIP from non-Calico hosts")
 			}
 		}
 		if s.cfg.VXLANEnabled {
-			found := false
+			want := fmt.Sprintf("-p 17 -m multiport --destination-ports %d -m addrtype --dst-type LOCAL --jump DROP", s.cfg.VXLANPort)
+			if s.nft {
+				want = fmt.Sprintf("cali-INPUT: meta l4proto 17 udp dport { %d } fib daddr type local counter drop", s.cfg.VXLANPort)
+			}
+			if !has(want) {
+				fail("no-foreign-vxlan-drop", "VXLAN enabled but no drop for VXLAN from non-allowed hosts")
+			}
+		}
+	case w[0] == "static" && (w[2] == "cali-PREROUTING" || w[2] == "cali-OUTPUT"):
+		// every static entry chain hands non-workload traffic to the host endpoint dispatch
+		want := "cali-from-host-endpoint"
+		if w[2] == "cali-OUTPUT" {
+			want = "cali-to-host-endpoint"
+		}
+		found := false
+		for _, l := range lines {
+			if s.isJump(l, want) {
+				found = true
+			}
+		}
+		if !found {
+			fail("no-hep-dispatch", "static chain "+w[1]+"/"+w[2]+" does not jump to "+want)
+		}
+		if w[1] == "raw" && w[2] == "cali-PREROUTING" {
+			// non-workload traffic (workload mark CLEAR) is what goes to the host endpoint dispatch
+			ok := false
 			for _, l := range lines {
-				if strings.HasSuffix(l, fmt.Sprintf("-p 17 -m multiport --destination-ports %d -m addrtype --dst-type LOCAL --jump DROP", s.cfg.VXLANPort)) {
-					found = true
+				if s.isJump(l, want) && (strings.Contains(l, "--mark 0/0x40000") || strings.Contains(l, "meta mark & 0x40000 == 0 ")) {
+					ok = true
 				}
 			}
-			if !found {
-				fail("no-foreign-vxlan-drop", "VXLAN enabled but no drop for VXLAN from non-allowed hosts")
+			if !ok {
+				fail("raw-hep-dispatch-guard", "raw PREROUTING does not send non-workload traffic to the host endpoint dispatch")
 			}
 		}
 	}
@@ -335,7 +427,7 @@ func genPorts(h *rt.H) string {
 	for i := 0; i < n; i++ {
 		p := rt.Pick(h, []string{"tcp", "udp", "sctp"}) + ":" + strconv.Itoa(rt.Pick(h, []int{22, 53, 67, 68, 179, 2379, 2380, 6443, 6666, 6667, 4789, 1, 65535}))
 		if h.Chance(0.3) {
-			p += ":" + rt.Pick(h, []string{"10.0.0.0/8", "0.0.0.0/0", "192.168.1.1/32", "172.16.0.0/12"})
+			p += ":" + rt.Pick(h, []string{"10.0.0.0/8", "0.0.0.0/0", "192.168.1.1/32", "172.16.0.0/12", "v6-fd00--/8", "v6-2001-db8--1/128"})
 		}
 		out = append(out, p)
 	}
@@ -364,11 +456,12 @@ func genTiers(h *rt.H) string {
 
 func genCase(h *rt.H) []string {
 	pfx := rt.Pick(h, []string{"cali", "cali,tap", "tap", "cali,tap,vethx", "c"})
-	ops := []string{fmt.Sprintf("cfg %s %s %d %s %s %s DROP %s %s %s %s",
-		b01(h.Bool()), b01(h.Bool()), rt.Pick(h, []int{4789, 4790, 8472, 53}),
+	ops := []string{fmt.Sprintf("cfg %s %s %s %d %s %s %s DROP %s %s %s %s",
+		rt.Pick(h, []string{"ipt", "ipt", "nft"}), b01(h.Bool()), b01(h.Bool()), rt.Pick(h, []int{4789, 4790, 8472, 53}),
 		rt.Pick(h, []string{"DROP", "ACCEPT", "RETURN"}), rt.Pick(h, []string{"ACCEPT", "RETURN"}), rt.Pick(h, []string{"ACCEPT", "RETURN"}),
 		b01(h.Chance(0.3)), pfx, genPorts(h), genPorts(h))}
-	all := []string{"static filter cali-INPUT", "static filter cali-wl-to-host", "static filter cali-FORWARD"}
+	all := []string{"static filter cali-INPUT", "static filter cali-wl-to-host", "static filter cali-FORWARD", "static filter cali-OUTPUT",
+		"static raw cali-PREROUTING", "static raw cali-OUTPUT", "static mangle cali-PREROUTING"}
 	for _, t := range []string{"filter", "raw", "mangle"} {
 		all = append(all, "static "+t+" cali-failsafe-in", "static "+t+" cali-failsafe-out")
 	}
